@@ -382,9 +382,10 @@ func runCase(c *Case) (nontrivial int, err error) {
 // invalid groups must be rejected
 
 type rejectCase struct {
-	Kind string `json:"kind"`
-	A    Site   `json:"a"`
-	B    Site   `json:"b"`
+	Kind  string `json:"kind"`
+	A     Site   `json:"a"`
+	B     Site   `json:"b"`
+	Order int    `json:"order,omitempty"` // mixed: 0 = TLS site first, 1 = plaintext site first, 2 = TLS, plaintext, TLS; samename: 1 = sites swapped
 }
 
 func runReject(c *rejectCase) error {
@@ -394,10 +395,24 @@ func runReject(c *rejectCase) error {
 	case "mixed":
 		// a TLS site and a plaintext site on one listener
 		one := &Case{Sites: []Site{c.A}}
-		cf = strings.Replace(casketfile(one), ":0 {", ":18443 {", 1) + fmt.Sprintf("http://%s:18443 {\n\tstatus 204 /\n}\n", "plain.test")
+		tlsSite := strings.Replace(casketfile(one), ":0 {", ":18443 {", 1)
+		plain := fmt.Sprintf("http://%s:18443 {\n\tstatus 204 /\n}\n", "plain.test")
+		switch c.Order {
+		case 1:
+			cf = plain + tlsSite
+		case 2:
+			other := c.B
+			other.Host = "other.test"
+			cf = tlsSite + plain + strings.Replace(casketfile(&Case{Sites: []Site{other}}), ":0 {", ":18443 {", 1)
+		default:
+			cf = tlsSite + plain
+		}
 	case "samename":
 		// the same host twice (different paths) with incompatible TLS settings
 		two := &Case{Sites: []Site{c.A, c.B}}
+		if c.Order == 1 {
+			two = &Case{Sites: []Site{c.B, c.A}}
+		}
 		cf = casketfile(two)
 		cf = strings.Replace(cf, c.A.Host+":0 {", c.A.Host+":0/x {", 1)
 	}
@@ -509,8 +524,12 @@ func TestReject(t *testing.T) {
 		if c.Kind == "samename" {
 			// verify vs verify_if_given share the CA list but differ in policy; request vs require differ too: all fine
 		}
+		c.Order = rapid.IntRange(0, 2).Draw(t, "order")
+		if c.Kind == "samename" && c.Order == 2 {
+			c.Order = 1
+		}
 		err := runReject(c)
-		vt.Record("reject", c, true, "kind:"+c.Kind)
+		vt.Record("reject", c, true, "kind:"+c.Kind, fmt.Sprintf("order:%d", c.Order))
 		vt.Check(t, "reject", c, err)
 	})
 }
